@@ -3,7 +3,7 @@
    helper registration are decided by the check on the real planner (every emitted sub-request is validated by the
    receiving evaluating fake against ITS OWN schema; coverage/helpers through C01's single-server equality). *)
 From Coq Require Import List String Bool Arith.
-From Pebbles Require Import Base.Json Plan.Vars Plan.VarsProofs Plan.Header Plan.HeaderProofs Merge.Model Plan.Steps Plan.StepsProofs.
+From Pebbles Require Import Base.Json Plan.Vars Plan.VarsProofs Plan.Header Plan.HeaderProofs Merge.Model Plan.Steps Plan.StepsProofs Plan.StepsCount.
 Import ListNotations.
 Open Scope string_scope.
 
@@ -99,6 +99,19 @@ Theorem every_plan_step_asks_for_its_own_fields : forall tm ps urls parent input
   Forall (fun st => s_url st <> internal_service -> step_ok tm st) steps.
 Proof. intros tm ps urls parent input fuel steps H1 H2 H3 H4. exact (plan_steps_owned tm ps urls parent input fuel steps H1 H2 H3 H4). Qed.
 
+(* ... and nothing is lost or sent twice: every field selection given to extractSelectionSet is, exactly once, either in
+   the selection kept for the service or in one of the steps made for other services (the gateway's node wrappers are
+   not counted) — for selections that reach no interface-typed parent, where the planner copies fields into one fragment
+   per implementation on purpose *)
+Theorem nothing_lost_nothing_sent_twice : forall tm ps f ip p inp l ss cs,
+  (forall q n, tm_get tm q n <> Some internal_service) -> (forall q, tm_get tm q "id" = None) ->
+  (forall i, mem i (ps_interfaces ps) = true -> tm_is_node tm i = None) ->
+  (forall t d, In d (possible ps t) -> is_root d = false) ->
+  is_root p = false -> l <> internal_service -> frags_ok tm p inp = true -> concs ps p inp = true ->
+  extract f tm ps ip p inp l = Ok (ss, cs) ->
+  cnt_l ss + scnt_l cs = cnt_l inp.
+Proof. intros tm ps f ip p inp l ss cs H1 H2 H3 H4. exact (extract_counts tm ps H1 H2 H3 H4 f ip p inp l ss cs). Qed.
+
 (* non-vacuity: { me { id name phone friend { id phone } } } with Human.name/friend at a, Human.phone at b *)
 Definition ex_tm : tmap :=
   [("Query", mkTP false [("me", "a")]); ("Human", mkTP true [("name", "a"); ("friend", "a"); ("phone", "b")])].
@@ -134,3 +147,4 @@ Print Assumptions header_declares_every_variable_occurrence.
 Print Assumptions C02_header_needs_annotations.
 Print Assumptions kept_and_moved_fields_are_owned.
 Print Assumptions every_plan_step_asks_for_its_own_fields.
+Print Assumptions nothing_lost_nothing_sent_twice.
